@@ -91,3 +91,54 @@ Theorem generated_index_arithmetic :
 Proof.
   split; [reflexivity|]. split; [exact gen_rows|]. split; [exact gen_index_is_cell_index|exact gen_walk_steps].
 Qed.
+
+(* ------------------------------------------------------------------ the two maxmatch passes *)
+From Coq Require Import String.
+From PV Require Import C05.Imp C04.GreedyRef.
+Open Scope string_scope. Open Scope Z_scope.
+
+Theorem generated_greedy_is_reference :
+  gen_greedy_enabled = ref_greedy_enabled /\
+  gen_greedy_count_from = ref_greedy_count_from /\
+  gen_greedy_count_to = ref_greedy_count_to /\
+  gen_greedy_count_step = ref_greedy_count_step /\
+  gen_greedy_count_var = ref_greedy_count_var /\
+  gen_greedy_count_body = ref_greedy_count_body /\
+  gen_greedy_fill_from = ref_greedy_fill_from /\
+  gen_greedy_fill_to = ref_greedy_fill_to /\
+  gen_greedy_fill_step = ref_greedy_fill_step /\
+  gen_greedy_fill_var = ref_greedy_fill_var /\
+  gen_greedy_fill_body = ref_greedy_fill_body.
+Proof. repeat split; reflexivity. Qed.
+
+Definition zupd (a : Z -> Z) (i v : Z) : Z -> Z := fun x => if x =? i then v else a x.
+
+(* one iteration of either pass, candidate p = s[i] with indices a = omatch1[p], b = omatch2[p] (cf. greedy_count /
+   greedy_fill): TEST both counters against maxmatch FIRST, then increment both, record the triple at position nmatch,
+   and count it; otherwise nothing changes *)
+Theorem greedy_pass_specs : forall s,
+  let p := rd s "s" (sv s "i") in
+  let a := rd s "omatch1" p in
+  let b := rd s "omatch2" p in
+  let take := (rd s "gotten1" a <? sv s "maxmatch") && (rd s "gotten2" b <? sv s "maxmatch") in
+  (let s' := ref_greedy_count_body s in
+   (forall x, rd s' "gotten1" x = if take then zupd (rd s "gotten1") a (rd s "gotten1" a + 1) x else rd s "gotten1" x) /\
+   (forall x, rd s' "gotten2" x = if take then zupd (rd s "gotten2") b (rd s "gotten2" b + 1) x else rd s "gotten2" x) /\
+   sv s' "nmatch" = if take then sv s "nmatch" + 1 else sv s "nmatch") /\
+  (let s' := ref_greedy_fill_body s in
+   (forall x, rd s' "gotten1" x = if take then zupd (rd s "gotten1") a (rd s "gotten1" a + 1) x else rd s "gotten1" x) /\
+   (forall x, rd s' "gotten2" x = if take then zupd (rd s "gotten2") b (rd s "gotten2" b + 1) x else rd s "gotten2" x) /\
+   (forall x, rd s' "match1" x = if take then zupd (rd s "match1") (sv s "nmatch") a x else rd s "match1" x) /\
+   (forall x, rd s' "match2" x = if take then zupd (rd s "match2") (sv s "nmatch") b x else rd s "match2" x) /\
+   (forall x, rd s' "distance12" x = if take then zupd (rd s "distance12") (sv s "nmatch") (rd s "odistance12" p) x else rd s "distance12" x) /\
+   sv s' "nmatch" = if take then sv s "nmatch" + 1 else sv s "nmatch") /\
+  (ref_greedy_count_from s = 0 /\ ref_greedy_count_to s = sv s "omatch1_size" /\ ref_greedy_count_step s = 1 /\
+   ref_greedy_fill_from s = 0 /\ ref_greedy_fill_to s = sv s "omatch1_size" /\ ref_greedy_fill_step s = 1 /\
+   ref_greedy_count_var = "i" /\ ref_greedy_fill_var = "i" /\ ref_greedy_enabled s = (sv s "maxmatch" >? 0)).
+Proof.
+  intros s p a b take. subst take a b p. unfold ref_greedy_count_body, ref_greedy_fill_body, ifte, zupd.
+  destruct ((rd s "gotten1" (rd s "omatch1" (rd s "s" (sv s "i"))) <? sv s "maxmatch") &&
+            (rd s "gotten2" (rd s "omatch2" (rd s "s" (sv s "i"))) <? sv s "maxmatch")).
+  - repeat split; intros; imp; reflexivity.
+  - repeat split; intros; reflexivity.
+Qed.
